@@ -313,8 +313,8 @@ def step(ms, op):
     if k == "unfreeze":
         ns.frozen = False
         return ns, ex
-    if k in ("cleanup", "verify"):
-        return ns, ex
+    if k in ("cleanup", "verify", "genfun"):
+        return ns, ex       # queries / code generation: nothing observable changes
     if k in ("load", "copyfrom"):
         for path, term in op[1]:
             tid = ("E", path)
